@@ -131,4 +131,39 @@ def Gen.callTag (T : Tables) (attrChain : Chain) (voids order : List Str) (g : G
   let s ← renderTag attrChain voids g.xml tag r.pairs r.contents
   pure (s, { g with ctx := r.ctx })
 
+/-- the ways a `Tag` object is used to render -/
+inductive How
+  | call          -- `tag(bind, **kw)`
+  | open_         -- `tag.open(bind, **kw)`; `tag.contents` is then the body to print
+  | close         -- `tag.close()`
+  | openClose     -- `tag.open(...)` + `tag.contents` + `tag.close()`
+  deriving DecidableEq, Repr
+
+/-- One rendering through a `Tag` object, whichever object it is: a fresh one from `gen.<tag>`, a
+    held reference used before, or the still-open one `gen.<tag>` hands back.  `Tag._open` ALWAYS
+    stores the new contents (`""` when there are none), so a Tag carries nothing from one rendering
+    to the next and the result depends on the arguments and the generator only.  `open()`/`close()`
+    refuse void elements (ValueError) before doing anything.
+    Returns (markup, `tag.contents` after an `open`) and the generator afterwards. -/
+def Gen.renderHow (T : Tables) (attrChain : Chain) (voids order : List Str) (g : Gen) (how : How) (tag : Str)
+    (bind : Option Bind) (kwargs : List (Str × Val)) : Except PyErr (Str × Option Str) × Gen :=
+  match how with
+  | .call =>
+    match g.callTag T attrChain voids order tag bind kwargs with
+    | .ok (s, g') => (.ok (s, none), g')
+    | .error e => (.error e, g.afterFailedTag T tag bind kwargs)
+  | .close =>
+    if voids.contains tag then (.error .valueError, g) else (.ok ('<' :: '/' :: tag ++ ['>'], none), g)
+  | .open_ | .openClose =>
+    if voids.contains tag then (.error .valueError, g) else
+    match prepareTag T order g tag bind kwargs with
+    | .error e => (.error e, g.afterFailedTag T tag bind kwargs)
+    | .ok r =>
+      match Flatland.C11.renderOpen attrChain tag r.pairs with
+      | .error e => (.error e, g.afterFailedTag T tag bind kwargs)
+      | .ok header =>
+        let g' := { g with ctx := r.ctx }
+        if how = .open_ then (.ok (header ++ ['>'], some r.contents), g')
+        else (.ok (header ++ '>' :: r.contents ++ '<' :: '/' :: tag ++ ['>'], none), g')
+
 end Flatland.Markup
